@@ -65,5 +65,5 @@ def agreement_radius(H, ppp):
 
 
 def is_orthogonal(H):
-    H = np.asarray(H)
-    return np.allclose(H, np.diag(np.diag(H)))
+    H = np.asarray(H, float)   # exactly diagonal: no absolute tolerance, cells come in any unit of length
+    return bool(np.array_equal(H, np.diag(np.diag(H))))
